@@ -201,13 +201,60 @@ pub mod x86 {
             }
         };
     }
+    pub mod jhcore {
+        use super::*;
+        use digest::generic_array::GenericArray;
+        use jh_x86_64::compressor::{verif_rounds, Compressor};
+        use ppv_lite86::vec128_storage;
+        #[inline(always)]
+        unsafe fn to_st(b: &[u8; 128]) -> [vec128_storage; 8] {
+            let mut st = [vec128_storage::default(); 8];
+            for i in 0..8 {
+                let w = |k: usize| u32::from_le_bytes([b[16 * i + 4 * k], b[16 * i + 4 * k + 1], b[16 * i + 4 * k + 2], b[16 * i + 4 * k + 3]]);
+                st[i] = vec128_storage::from([w(0), w(1), w(2), w(3)]);
+            }
+            st
+        }
+        #[inline(always)]
+        unsafe fn from_st(st: &[vec128_storage; 8], b: &mut [u8; 128]) {
+            for i in 0..8 {
+                let w: [u32; 4] = st[i].into();
+                for k in 0..4 {
+                    b[16 * i + 4 * k..16 * i + 4 * k + 4].copy_from_slice(&w[k].to_le_bytes());
+                }
+            }
+        }
+        entries! {
+            // the real compression function through the public Compressor API
+            fn h_jh_f8(state: *mut [u8; 128], block: *const [u8; 64]) {
+                let mut c = Compressor::new(*state);
+                c.input(GenericArray::from_slice(&*block));
+                *state = c.finalize();
+            }
+            // rounds from..to of E8 on the bit-sliced state (hook)
+            fn h_jh_rounds(state: *mut [u8; 128], from: usize, to: usize) {
+                let mut st = to_st(&*state);
+                verif_rounds(&mut st, from, to);
+                from_st(&st, &mut *state);
+            }
+            // F8 re-assembled from the hook: xor-in, 42 rounds, xor-out
+            fn h_jh_f8_via_rounds(state: *mut [u8; 128], block: *const [u8; 64]) {
+                let s = &mut *state;
+                for i in 0..64 { s[i] ^= (&*block)[i]; }
+                let mut st = to_st(s);
+                verif_rounds(&mut st, 0, 42);
+                from_st(&st, s);
+                for i in 0..64 { s[64 + i] ^= (&*block)[i]; }
+            }
+        }
+    }
     jh_step!(js224, h_jh224_step, Jh224);
     jh_step!(js256, h_jh256_step, Jh256);
     jh_step!(js384, h_jh384_step, Jh384);
     jh_step!(js512, h_jh512_step, Jh512);
     pub fn dispatch(name: &str, args: &[String]) -> Option<Vec<String>> {
         gs224::dispatch(name, args).or_else(|| gs256::dispatch(name, args)).or_else(|| gs384::dispatch(name, args)).or_else(|| gs512::dispatch(name, args))
-            .or_else(|| js224::dispatch(name, args)).or_else(|| js256::dispatch(name, args)).or_else(|| js384::dispatch(name, args)).or_else(|| js512::dispatch(name, args))
+            .or_else(|| jhcore::dispatch(name, args)).or_else(|| js224::dispatch(name, args)).or_else(|| js256::dispatch(name, args)).or_else(|| js384::dispatch(name, args)).or_else(|| js512::dispatch(name, args))
             .or_else(|| dispatch0(name, args))
     }
     pub fn dispatch0(name: &str, args: &[String]) -> Option<Vec<String>> {
